@@ -6,6 +6,7 @@ import (
 	"bytes"
 	"fmt"
 	"io"
+	iofs "io/fs"
 	"os"
 	"strings"
 	"sync"
@@ -298,7 +299,18 @@ func execC12(ci any) (r hx.Result) {
 			}
 			rangeStart = pos
 		}
-		g := mk.Content{Seed: c.Seed + 1, Len: 256 << 10, Style: 0}.Bytes()
+		// non-zero bytes over the first 4 MiB of the range (or all of it): every structure Create relies on must be
+		// written by Create, not inherited (a FAT32 root cluster lies behind both FAT copies, beyond 256 KiB on larger volumes)
+		glen := int64(4 << 20)
+		if glen > c.Size {
+			glen = c.Size
+		}
+		g := mk.Content{Seed: c.Seed + 1, Len: int(glen), Style: 0}.Bytes()
+		for i := range g {
+			if g[i] == 0 {
+				g[i] = 0xA7
+			}
+		}
 		env.d.Poke(rangeStart, g)
 		r.Class("stale:garbage")
 	} else if c.Stale != "" && c12FitSize(c.Stale, c.Size) {
@@ -426,6 +438,34 @@ func execC12(ci any) (r hx.Result) {
 	}
 	if err != nil || !bytes.Equal(data, probe) {
 		r.Fail("contents:"+c.T, "probe file of the re-opened %s filesystem: err=%v, %s", c.T, err, diffAt(data, probe))
+		return
+	}
+	// the root directory holds the probe file and nothing else: whatever was in the range before must not show through
+	root := "." // ReadDir takes io/fs path forms on every filesystem type
+	var ents []iofs.DirEntry
+	fin = hx.WithTimeout(6*watchdog(), func() {
+		if p, pv, st := hx.Safe(func() { ents, err = fs.ReadDir(root) }); p {
+			r.Fail("readdir-panic", "listing the root directory of the re-opened %s filesystem panicked: %v [%s]", c.T, pv, st)
+		}
+	})
+	if !fin {
+		r.Fail("readdir-hang", "listing the root directory did not return")
+	}
+	if r.Failed() {
+		return
+	}
+	if err != nil {
+		r.Fail("rootdir:"+c.T, "the root directory of the re-opened %s filesystem (stale=%q) cannot be listed: %v", c.T, c.Stale, err)
+		return
+	}
+	var names []string
+	for _, e := range ents {
+		if n := e.Name(); n != "lost+found" && n != "." && n != ".." {
+			names = append(names, n)
+		}
+	}
+	if len(names) != 1 || !strings.EqualFold(names[0], "probe.txt") {
+		r.Fail("rootdir:"+c.T, "the root directory of the re-opened %s filesystem (%s, stale=%q) lists %q, only the probe file was created", c.T, c.Place, c.Stale, shortList(names))
 	}
 	return
 }
